@@ -536,7 +536,7 @@ pub fn run(args: &Args, rep: &mut Report) {
     }
     // a device with more than 2^32-1 sectors and no explicit sector count must be refused, not truncated
     if (part == "all" || part == "real") && shard == 0 {
-        for (bps, sectors) in [(512u16, (1u64 << 32) + 7), (4096, 1u64 << 32), (512, u64::from(u32::MAX))] {
+        for (bps, sectors) in [(512u16, (1u64 << 32) + 7), (4096, 1u64 << 32), (512, u64::from(u32::MAX)), (512, (1u64 << 32) + 42), (512, (1u64 << 32) + 100_000), (512, 3u64 << 31), (4096, (1u64 << 32) + 5_000), (512, (1u64 << 33) + (1 << 20)), (1024, (1u64 << 32) + 8_000_000)] {
             rep.evaluations += 1;
             let img = Image::new(sectors * u64::from(bps));
             let dev = MonDev::new(img);
